@@ -8,7 +8,7 @@ use refimpl as r;
 fn budget(t: Tier) -> u64 {
     match t {
         Tier::Quick => 6_400,
-        Tier::Thorough => 80_000,
+        Tier::Thorough => 480_000,
     }
 }
 
